@@ -107,12 +107,23 @@ func scenC10(r *Run) {
 	if strings.Contains(kind, "http") || strings.HasPrefix(kind, "websocket") {
 		offsets = []int{0, 1, 5, 17, 40, 80, 120, 150, 170, 190, 200, 210, 220, 230, 240, 260, 300, 400}
 	}
+	// structured plan: first something that makes calls fail or stay pending,
+	// then (optionally) something that must end pending calls
+	nf = 2
 	for i := 0; i < nf; i++ {
 		var k string
-		if mode == "loss" {
-			k = r.PlanOf("close", "reset", "abort", "cancel", "dialfail", "close", "reset")
-		} else {
-			k = r.PlanOf("silence", "silence", "slow", "abort", "cancel", "drop")
+		switch {
+		case mode == "loss" && i == 0:
+			k = r.PlanOf("close", "reset", "close", "reset", "dialfail", "none", "abort", "cancel")
+		case mode == "loss":
+			k = r.PlanOf("none", "abort", "cancel", "close", "reset")
+		case i == 0:
+			k = r.PlanOf("silence", "slow", "silence", "slow", "drop")
+		default:
+			k = r.PlanOf("none", "abort", "cancel", "abort", "cancel", "slow", "silence")
+		}
+		if k == "none" {
+			continue
 		}
 		if !fx.HasConns() {
 			switch k {
